@@ -8,9 +8,26 @@ MANIFEST = dict(
     design="4/C05")
 
 
+class C05Check(verif.Check):
+    """SSZ stream (harness/cmd/c05) plus the state roots along generated chains: the root zrnt's tree-backed state view
+    reports after every transition step vs the Spec merkleization of the same state bytes (extracted beacon model)."""
+
+    def correspondence(self, tier, seed, replay=None):
+        summ, found, problems = super().correspondence(tier, seed, replay)
+        import beacon
+        cs, cf, cp = beacon.chain_stream(tier, seed, lambda r: r["kind"] == "state" and "stateroot" in r["detail"], beacon.judge_plain)
+        problems.extend(cp)
+        found.extend(cf)
+        if cs:
+            summ["evaluations"] = summ.get("evaluations", 0) + cs["evaluations"]
+            summ["distinct_nontrivial"] = summ.get("distinct_nontrivial", 0) + cs["distinct_nontrivial"]
+            summ["x_stream_chain_state_roots"] = cs
+        return summ, found, problems
+
+
 def make_check():
     S.install_known()
-    return verif.Check(
+    return C05Check(
         "C05",
         make_targets=["Properties/C05.vo", "Ssz/SszRun.vo", "Ssz/SszDescCheck.vo", "Ssz/SchemaDump.vo"],
         trust=S.SSZ_TRUST,
